@@ -2,7 +2,7 @@
     refines the reference semantics with signals, for every fuel.
     [clean]: the starting state of a run (one empty-or-not scope, no pending flag or return
     value, every user procedure in the tables well formed). *)
-From Aplang Require Import Base FloatX Token Ast Tables Value EvalImpl EvalSpec ParseSpec SpecLemmas Refine.
+From Aplang Require Import Base FloatX Token Ast Tables Value EvalImpl EvalSpec ParseSpec ParseProofs SpecLemmas Refine.
 
 Definition C02_fn_wf (f : fn) : Prop :=
   match f with FUser params body => wf_stmt true false body /\ (length params <= 255)%nat | FNative _ _ _ => True end.
@@ -15,7 +15,7 @@ Definition C02_clean (st : state) : Prop :=
     programs, all fuels, all starting states of a run *)
 Theorem C02_refine : forall fuel prog st0, wf_prog prog -> C02_clean st0 ->
   observe (run_impl fuel prog st0) = observe (run_spec fuel prog st0).
-Proof. exact refine. Qed.
+Proof. exact (refine_gen parse_wf). Qed.
 
 (** the state a run starts from is clean *)
 Theorem C02_fresh_state_clean : forall h o i orc0 d, C02_clean (fresh_state h o i orc0 d).
